@@ -116,6 +116,38 @@ fn state_line(cas: &Cas<K>, root: &Path) -> String {
     format!("I={} S={} cas=[{}] idx={} intents={} prot={}", if li { "*" } else { "-" }, if ls { "*" } else { "-" }, cas_listing(root), idx, intents, prot)
 }
 
+// a crash image of the running store: with every worker parked at a scheduling point (none inside a
+// system call) the directory as it is now is what a kill of the process at this instant leaves behind.
+// It is copied and opened with recovery; the recovered index and the number of missing blobs are printed
+// (proofs/ConcDurable.v, C03_concurrent_kill_any_position: recovery from the log written so far yields
+// the key map of this position, every key with its blob).
+fn copy_tree(from: &Path, to: &Path) {
+    std::fs::create_dir_all(to).unwrap();
+    if let Ok(rd) = std::fs::read_dir(from) {
+        for e in rd.flatten() {
+            let (p, q) = (e.path(), to.join(e.file_name()));
+            if e.file_type().map(|t| t.is_dir()).unwrap_or(false) { copy_tree(&p, &q); } else { let _ = std::fs::copy(&p, &q); }
+        }
+    }
+}
+fn crash_image(root: &Path, n: u64, tag: &str) -> String {
+    let img = root.parent().unwrap().join(format!("img-{tag}"));
+    copy_tree(root, &img);
+    let conf = Config { sync_mode: SyncMode::Sync, num_ops_per_wal: NonZeroU64::new(n).unwrap(), pre_create_cas_dirs: false,
+                        scan_orphans_on_startup: true, verify_blob_integrity: true, fail_on_integrity_errors: false };
+    let r = std::panic::catch_unwind(std::panic::AssertUnwindSafe(|| match Cas::<K>::open_with_recover(&img, conf) {
+        Ok((c, st)) => {
+            let g = c.read_index_state();
+            let idx = g.iter().map(|(k, it)| format!("{}={}:{}", hex(k), hex(it.blob_hash.as_bytes()), it.blob_size)).collect::<Vec<_>>().join(";");
+            let (m, co) = st.map(|s| (s.missing_blobs.len(), s.corrupted_blobs.len())).unwrap_or((0, 0));
+            format!("idx=[{idx}] missing={m} corrupted={co}")
+        }
+        Err(e) => format!("FAILED {}", classify(&format!("{e:?}"))),
+    })).unwrap_or_else(|_| "FAILED panic".into());
+    let _ = std::fs::remove_dir_all(&img);
+    r
+}
+
 struct CCase { name: String, lines: Vec<String> }
 fn parse_conc(path: &str) -> Vec<CCase> {
     let mut out = vec![]; let mut cur: Option<CCase> = None;
@@ -207,6 +239,10 @@ fn run_one(case: &CCase, sched_lines: &[String], free_seed: Option<u64>) -> Vec<
     for (id, _) in &threads { if wait_parked(*id, 10).is_none() { out.push(format!("X thread {id} never started")); } }
     out.push(format!("S init {}", state_line(&cas, &root)));
     let mut reported = 0usize;
+    let obstacles0 = case.lines.iter().any(|l| l.starts_with("undeletable") || l.starts_with("blockckpt"));
+    let mut images = 0usize;
+    // in model-free exploration one round in three also takes crash images (they slow the exploration down)
+    let crash_free = free_seed.map(|s| s % 3 == 1).unwrap_or(false);
     if let Some(seed) = free_seed {
         // model-free exploration: a random parked thread whose next lock (read off the point's name)
         // is free according to the real lock bits is released; a thread that does not come back
@@ -259,7 +295,9 @@ fn run_one(case: &CCase, sched_lines: &[String], free_seed: Option<u64>) -> Vec<
                 std::thread::sleep(Duration::from_micros(200));
             }
             match to {
-                Some(to) => { out.push(format!("S {step} t{tid} {from} -> {to} {}", state_line(&cas, &root))); idle_rounds = 0; }
+                Some(to) => { out.push(format!("S {step} t{tid} {from} -> {to} {}", state_line(&cas, &root))); idle_rounds = 0;
+                              let all_parked = sched.st.lock().unwrap().parked.len() == threads.len();
+                              if !obstacles0 && images < 48 && crash_free && all_parked { images += 1; out.push(format!("K {step} {}", crash_image(&root, n, &step.to_string()))); } }
                 None => { out.push(format!("S {step} t{tid} {from} -> BLOCKED {}", state_line(&cas, &root))); idle_rounds += 1; }
             }
             let g = sched.st.lock().unwrap();
@@ -288,6 +326,9 @@ fn run_one(case: &CCase, sched_lines: &[String], free_seed: Option<u64>) -> Vec<
         }
         let to = match wait_parked(tid, 4) { Some(x) => x, None => { out.push(format!("S {step} t{tid} {from} -> HANG (the thread did not reach its next scheduling point within 4 s)")); break; } };
         out.push(format!("S {step} t{tid} {from} -> {to} {}", state_line(&cas, &root)));
+        // only with EVERY worker parked (none running inside the library): otherwise the copy would not be an instant
+        let all_parked = sched.st.lock().unwrap().parked.len() == threads.len();
+        if !obstacles0 && images < 48 && all_parked { images += 1; out.push(format!("K {step} {}", crash_image(&root, n, step))); }
         let g = sched.st.lock().unwrap();
         let mut news: Vec<&(usize, usize, String)> = g.results[reported..].iter().collect();
         news.sort();
